@@ -3,7 +3,7 @@
 tier="$1"; shift
 out="$(mktemp -d /tmp/vf_sweep_XXXXXX)"
 for seed in "$@"; do
-  for id in C01 C02 C03 C04 C05 C06 C07 C08 C09 C10 C11 C12 C13 C14 C15 C16 C17 C18; do
+  for id in ${SWEEP_IDS:-C01 C02 C03 C04 C05 C06 C07 C08 C09 C10 C11 C12 C13 C14 C15 C16 C17 C18}; do
     s=$(date +%s)
     VERIF_SEED=$seed VERIF_EVIDENCE_DIR="$out/ev" VERIF_REPLAY_DIR="$out/replays_$seed" ./check $id $tier > "$out/$id.$seed.log" 2>&1
     rc=$?
